@@ -1178,6 +1178,7 @@ PROPS = {
     ),
     'C15': dict(
         families=['OO'],
+        asan=True,
         gen=lambda tier, seed: iter_obligations('C15', tier, seed),
         explanation='From small catalogue shapes with symbolic keys an iterator (iter, iterkeys, iteritems) or a lazy sequence '
                     '(keys(), items(), values()) is created on the real C and Python containers and a schedule of iteration steps '
@@ -1194,6 +1195,7 @@ PROPS = {
     ),
     'C16': dict(
         families=['OO'],
+        asan=True,
         gen=lambda tier, seed: ref_obligations('C16', tier, seed),
         explanation='Compiled OO containers are built from catalogue shapes (loaded through __setstate__ and grown through the API) '
                     'whose keys AND values are distinct Python objects with symbolic order. Before and after one solver-chosen call '
@@ -1211,6 +1213,7 @@ PROPS = {
     ),
     'C17': dict(
         families=['OO'],
+        asan=True,
         hook=True,
         gen=lambda tier, seed: oom_obligations('C17', tier, seed),
         explanation='Built with the BTREES_VERIF hook. From every catalogue shape (loaded and grown; shapes about to split at leaf, '
